@@ -290,6 +290,9 @@ def build_menu():
     E.append(Entry("DummyTimeSeriesRegressor", "DummyTimeSeriesRegressor",
                    lambda inner=None: DummyTimeSeriesRegressor(past=2),
                    "ts", ["predict_xy"]))
+    E.append(Entry("DummyTimeSeriesRegressor[diff]", "DummyTimeSeriesRegressor",
+                   lambda inner=None: DummyTimeSeriesRegressor(past=2, preprocessing=TimeSeriesDifference(1)),
+                   "ts", ["predict_xy"]))
     E.append(Entry("TimeSeriesDifference", "TimeSeriesDifference",
                    lambda inner=None: TimeSeriesDifference(1),
                    "tsx", ["transform_xy"]))
